@@ -17,7 +17,8 @@
      app/app.go  Run: per chain kind, which of these are composed, with which arguments (the quantity
             the start block is aligned to, which start values pass through that call) and what
             reaches NewXChain(...).PollEvents -> ListenToEvents(ctx, start): the [wiring] record, whose
-            three instances are GENERATED into Gen/C05_Wiring.v by tools/wiring2coq.
+            three instances are GENERATED into Gen/C05_Wiring.v by tools/wiring2coq, together with
+            the arguments of the GetStartBlock call ([start_call], below).
 
    Block numbers are non-negative in every use (the generator and the well-formedness predicates
    say so); big.Int.Bytes() dropping the sign of a stored block is therefore not modelled. *)
@@ -71,6 +72,73 @@ Record cfg := {
   latest : bool;   (* GeneralChainConfig.LatestBlock *)
   fresh : bool     (* GeneralChainConfig.FreshStart *)
 }.
+
+(* ---- what app.Run hands to blockstore.GetStartBlock(domainID, startBlock, latest, fresh) ----------
+   app.go (directly, through local names or through helper functions of package app) gives each
+   parameter an expression over the chain's configuration; tools/wiring2coq extracts, per chain kind,
+   WHICH: Gen/C05_Wiring.v start_evm / start_substrate / start_btc.  GetStartBlock then sees the
+   configuration [sc_cfg sc c], not [c]. *)
+Inductive flag_expr :=
+| FLatest                       (* config.GeneralChainConfig.LatestBlock *)
+| FFresh                        (* config.GeneralChainConfig.FreshStart *)
+| FConst (b : bool)
+| FNot (e : flag_expr)
+| FAnd (a b : flag_expr) | FOr (a b : flag_expr) | FEq (a b : flag_expr) | FNe (a b : flag_expr)
+| FOther.                       (* anything else: neither composed by the runner nor modelled *)
+
+Inductive block_expr :=
+| BConfigured                   (* config.StartBlock *)
+| BLit (v : Z)                  (* big.NewInt(v) *)
+| BOther.
+
+Record start_call := { sc_block : block_expr; sc_latest : flag_expr; sc_fresh : flag_expr }.
+
+Fixpoint flag_val (l f : bool) (e : flag_expr) : bool :=
+  match e with
+  | FLatest => l
+  | FFresh => f
+  | FConst b => b
+  | FNot a => negb (flag_val l f a)
+  | FAnd a b => flag_val l f a && flag_val l f b
+  | FOr a b => flag_val l f a || flag_val l f b
+  | FEq a b => Bool.eqb (flag_val l f a) (flag_val l f b)
+  | FNe a b => xorb (flag_val l f a) (flag_val l f b)
+  | FOther => false
+  end.
+
+Fixpoint flag_known (e : flag_expr) : bool :=
+  match e with
+  | FOther => false
+  | FNot a => flag_known a
+  | FAnd a b | FOr a b | FEq a b | FNe a b => flag_known a && flag_known b
+  | _ => true
+  end.
+
+Definition block_val (configured : Z) (b : block_expr) : Z :=
+  match b with BLit v => v | _ => configured end.
+
+(* the configuration as GetStartBlock is told it *)
+Definition sc_cfg (sc : start_call) (c : cfg) : cfg :=
+  {| kd := kd c; ival := ival c; conf := conf c; nh := nh c;
+     cstart := block_val (cstart c) (sc_block sc);
+     latest := flag_val (latest c) (fresh c) (sc_latest sc);
+     fresh := flag_val (latest c) (fresh c) (sc_fresh sc) |}.
+
+(* The call tells GetStartBlock the truth: the configured start block, and each flag is given an
+   expression that equals that flag under all four settings of (latest, fresh). *)
+Definition flags_faithful (sc : start_call) : bool :=
+  forallb (fun lf : bool * bool =>
+             Bool.eqb (flag_val (fst lf) (snd lf) (sc_latest sc)) (fst lf) &&
+             Bool.eqb (flag_val (fst lf) (snd lf) (sc_fresh sc)) (snd lf))
+          [(false, false); (false, true); (true, false); (true, true)].
+
+Definition start_call_ok (sc : start_call) : bool :=
+  match sc_block sc with BConfigured => true | _ => false end &&
+  flag_known (sc_latest sc) && flag_known (sc_fresh sc) && flags_faithful sc.
+
+(* app.go as it stands: blockstore.GetStartBlock(id, config.StartBlock, latest, fresh) *)
+Definition canonical_start : start_call :=
+  {| sc_block := BConfigured; sc_latest := FLatest; sc_fresh := FFresh |}.
 
 Definition align (s i : Z) : Z := s - s mod i.
 
